@@ -464,7 +464,7 @@ func (c11) Run(e *Env) {
 		return op
 	}
 
-	nSteps := e.Range(3, 40)
+	nSteps := e.Range(3, 40*e.Depth())
 	for step := 0; step < nSteps; step++ {
 		quiesce()
 		mh, eh, ei := parkedCounts()
